@@ -112,6 +112,23 @@ PROBLEMS = {
         "method": "highs-ds",
     },
 }
+def _deep_objective(nterms):
+    acc = sq(["bin", "-", ["el", _x, 0], ["raw", 0.5, "float"]])
+    for i in range(1, nterms):
+        acc = ["bin", "+", acc, ["bin", "*", ["raw", 0.01, "float"], sq(["bin", "-", ["el", _x, i % 3], ["raw", 0.1 * (i % 7), "float"]])]]
+    return acc
+
+
+# objectives accumulated term by term (a few hundred levels deep, below and above the switch depth of the iterative algorithms)
+PROBLEMS["deep-objective-260"] = {
+    "decls": [{"k": "vec", "name": "x", "n": 3, "lb": -2.0, "ub": 3.0}],
+    "objective": _deep_objective(260), "sense": "min",
+    "constraints": [["rel", ">=", ["sum", _x], ["raw", 0.5, "float"], "direct"]], "method": "SLSQP",
+}
+PROBLEMS["deep-objective-430"] = {
+    "decls": [{"k": "vec", "name": "x", "n": 3, "lb": -2.0, "ub": 3.0}],
+    "objective": _deep_objective(430), "sense": "min", "constraints": [], "method": "L-BFGS-B",
+}
 CALLBACK_KINDS = ["fun", "jac", "hess", "cfun", "cjac"]
 BUILD_KINDS = ["build:compile_expression", "build:compile_jacobian", "build:compile_hessian"]
 
